@@ -25,6 +25,9 @@ P = {
  "C09": ("interprocedural flow-sensitive must-lockset with access paths (Eraser-style, static), lock-pairing path rule",
          "Every exported method of every public handler / mutex-owning type is a concurrent entry point; every read and write of receiver-reachable state on every call path (module callees in context, goroutines, String() reached through %v logging) is recorded with the locks certainly held, and every conflicting pair must share an excluding lock; readers that clean up count as writers; objects behind interfaces that are not concurrency-safe by contract count as written by each call; every Lock reaches its Unlock on all paths. Level 'other': a static race lint with stated unsoundness, exhaustive over call paths where tests sample schedules.",
          "NOT decided: atomicity across two critical sections, races inside user-supplied objects, aliasing through two different access paths, values with undetermined path (counted in evidence). Exempt by name: Wrap/Fallback/SetCookieValue wiring setters, SetDefaultWeight, test-only clock provider. Known finding K2 (CircuitBreaker.String unsynchronised) is printed as KNOWN-FINDING. Trusted: go/ssa, VTA, analyser, table of concurrency-safe interfaces.", "3/C09"),
+ "C16": ("decision-table extraction (path enumeration + phi resolution, compared on all atom assignments), registry check of the ReverseProxy literal, defer/ordering path rule",
+         "The standard error handler's status table is extracted from all CFG paths and compared with 504/502/502/499/500 on every assignment of {net.Error, Timeout, io.EOF, context.Canceled}; exactly one WriteHeader then a body write on every path; forward.New binds that handler as ReverseProxy.ErrorHandler and leaves relay hooks to the stdlib (a configured BufferPool must allocate per Get); the state listener's 'disconnected' is registered with defer after 'connected', before the wrapped handler, for the same URL. Level 'other'.",
+         "NOT decided: which error values the transport produces per failure mode, 'never a hang', byte-faithful relay (delegated to net/http/httputil, trusted). Trusted: go/ssa, analyser.", "3/C16"),
 }
 
 NA = {}
